@@ -21,6 +21,11 @@ def md_text(rng):
         o([1920, 0, 4294967295]), o([1080, 1]), o([7, 2]), fr, o([2500, 0]), o([10, 2]), o([128, 160]), o([44100, 48000]), o([2, 1]), st, enc)
 
 
+def odd_value(r):
+    return r.choice([S(""), S("a"), S("avc"), S("avc1"), S("avc1.64001f"), S("\u20ac\u20ac"), S("\u00e9\u00e9\u00e9"), S("mp4a"), Num(float("nan")), Num(-1),
+                     Num(1e300), ("B", True), NULL, Obj([]), Obj([("x", Num(1))]), ("A", [Num(7)]), ("A", [])])
+
+
 class Script:
     def __init__(self, rng, tier, clean=False):
         self.rng = rng
@@ -165,6 +170,10 @@ class Script:
             props = Obj([("width", Num(1280)), ("height", Num(720.9)), ("framerate", Num(r.choice([30, 29.97, 1e300, -1]))),
                          ("videocodecid", r.choice([Num(7), S("avc1")])), ("audiodatarate", Num(-3)), ("stereo", ("B", True)),
                          ("encoder", S("obs")), ("audiochannels", Num(float("nan"))), ("audiosamplerate", Num(4294967296.0))][:r.range(0, 9)])
+            if r.chance(1, 3):
+                # values of an unexpected type or shape under the known names (short / non-ASCII strings where a number is usual, ...)
+                props = Obj([(k, odd_value(r) if r.chance(1, 2) else v) for k, v in props[1]] +
+                            ([("audiocodecid", odd_value(r))] if r.chance(1, 2) else []))
             if j == 0:
                 vals = [S("@setDataFrame")]
             elif j == 1:
